@@ -23,12 +23,27 @@
 
    Part 1  the light invariant [LI] (acyclic binding chains, n variables,
            bindings of depth <= M, constraint objects of the class, und <= u)
-           and the nesting induction on u ([chain_all]).
+           and the nesting induction on u ([CCs_all]: T_fulfill at level u+1
+           uses unify-against-a-base-type at level u, which uses the round at
+           level u).  [LI] is preserved by every cell / constraint-set update
+           the engine makes, so it is available at the intermediate states
+           inside bind / above / below where the rounds start.
    Part 2  unify in subtype mode on arbitrary terms: Infer/TermP.v's induction
-           on fuel redone with check_constraints no longer a no-op.
-   Part 3  fix_ty, apply.
-   Part 4  TypeSchema.instance.
-   Part 5  whole programs. *)
+           on fuel redone with check_constraints no longer a no-op
+           ([specU_all]: fuel >= depth-through-bindings + cc_fuel u + 8).  A
+           fuel-shifted simulation with the constraint-free run (Infer/TermSub.v)
+           is impossible here: the constrained run writes cells the erased run
+           does not and the two branch differently.  Between sub-unifications the
+           strong invariants are re-established from the partial-correctness
+           results (JE: SoundElimS.unify_soundE, inv: Inv.unify_ok).
+   Part 3  fix_ty ([specF_all]), apply ([apply_nfE]); 3b the explicit bounds.
+   Part 4  TypeSchema.instance.  4a: a round rooted at a variable x all of whose
+           pending constraints refer to x itself (the schematic variables of
+           the instance being created) stays inside x ([Ls_all], partial
+           correctness): this keeps Constraint.variables(indirect=True)
+           (closure_f) linear in the constraints created so far.  4b: one
+           new_constraint.  4c: the constraint loop, instance ([inst_nfE]).
+   Part 5  whole programs ([prog_term_elim], [prog_fuelE]). *)
 From Coq Require Import List Arith Bool Lia Permutation.
 Import ListNotations.
 From TF Require Import Base.Hier Base.Ty Sub.SubSpec Infer.Store Infer.Engine Infer.Run
@@ -1774,3 +1789,209 @@ Proof.
 Qed.
 
 End InstNF.
+
+(* ================================================================== *)
+(* Part 5.  Whole programs                                              *)
+(* ================================================================== *)
+(* E: number of elimination constraints a command creates;
+   K: fuel for Constraint.variables(indirect=True) while the constraints of a
+      schema are created: (1 + most alternatives) terms per earlier constraint *)
+Definition cmd_elim (c : cmd) : nat :=
+  match c with CInst sc => ecnt (s_constrs sc) | _ => 0 end.
+Definition cmd_clos (c : cmd) : nat :=
+  match c with
+  | CInst sc => length (s_constrs sc) * S (amax (s_constrs sc)) + amax (s_constrs sc) + 2
+  | _ => 0
+  end.
+Definition prog_elim (prog : list cmd) : nat := list_sum (map cmd_elim prog).
+Definition prog_clos (prog : list cmd) : nat := list_max (map cmd_clos prog).
+
+Definition prog_fuelE (prog : list cmd) : nat :=
+  Nat.max (prog_depth prog * (prog_vars prog + 1) + cc_fuel (prog_elim prog) + 8) (prog_clos prog).
+
+Section ProgramsE.
+Variable H : hier.
+Hypothesis W : wf_hier H.
+Variable M : nat.
+Hypothesis M1 : 1 <= M.
+
+Definition CPostE (n k e : nat) (vals : list tyv) : list tyv -> store -> Prop :=
+  fun vals' s' => exists n', n <= n' <= n + k /\ JE H s' /\ inv s' /\ LI H M n' e s' /\
+     Forall (tg H n') vals' /\ Forall (fun t => depth t <= M) vals' /\ length vals' = S (length vals).
+
+Lemma cmd_nfE f c vals s n e : JE H s -> inv s -> LI H M n e s ->
+  Forall (tg H n) vals -> Forall (fun t => depth t <= M) vals ->
+  cmdE H (length vals) c -> cmd_depth c <= M ->
+  M + (n + cmd_vars c) * M + cc_fuel (e + cmd_elim c) + 8 <= f -> cmd_clos c <= f ->
+  nf (run_cmd H f c vals) s (CPostE n (cmd_vars c) (e + cmd_elim c) vals).
+Proof.
+  intros I Iv Ls Tv Dv Pc Dc L Lc.
+  destruct Pc as [sc Sb Pcs|fi xi b Lf Lx]; cbn [run_cmd cmd_vars cmd_depth cmd_elim cmd_clos] in *.
+  - eapply nf_bind; [apply (inst_nfE H W M M1 f sc s n e); auto; lia|].
+    cbv beta. intros t s1 _ (I1 & Iv1 & L1 & Tt & Dt). apply nf_ret.
+    exists (n + (s_n sc + wilds (s_body sc))). split; [lia|].
+    split; [exact I1|split; [exact Iv1|split; [exact L1|split; [|split]]]].
+    + apply Forall_app. split; [eapply Forall_impl; [|exact Tv]; intros a; apply tg_mono; lia|].
+      constructor; [exact Tt|constructor].
+    + apply Forall_app. split; [exact Dv|constructor; [exact Dt|constructor]].
+    + rewrite app_length. cbn. lia.
+  - rewrite Nat.add_0_r in *.
+    assert (P : PreE H M n e s) by (split; [exact I|split; [exact Iv|exact Ls]]).
+    eapply nf_bind.
+    + apply (apply_nfE H W M e M1 f (val vals fi) (val vals xi) b s n); auto using val_tg, val_depth.
+    + cbv beta. intros t s1 E1 (n' & Ln & I1 & Iv1 & L1 & Dt & Tt). apply nf_ret.
+      exists n'. split; [exact Ln|].
+      split; [exact I1|split; [exact Iv1|split; [exact L1|split; [|split]]]].
+      * apply Forall_app. split; [eapply Forall_impl; [|exact Tv]; intros a; apply tg_mono; lia|].
+        constructor; [exact Tt|constructor].
+      * apply Forall_app. split; [exact Dv|constructor; [exact Dt|constructor]].
+      * rewrite app_length. cbn. lia.
+Qed.
+
+Lemma run_cmds_nfE f : forall cs i vals s n e, JE H s -> inv s -> LI H M n e s ->
+  Forall (tg H n) vals -> Forall (fun t => depth t <= M) vals ->
+  progE H (length vals) cs -> Forall (fun c => cmd_depth c <= M) cs ->
+  Forall (fun c => cmd_clos c <= f) cs ->
+  M + (n + prog_vars cs) * M + cc_fuel (e + prog_elim cs) + 8 <= f ->
+  no_fuel_err (fst (fst (run_cmds H f cs i vals s))).
+Proof.
+  induction cs as [|c cs IH]; intros i vals s n e I Iv Ls Tv Dv Pp Dp Cp L; cbn [run_cmds].
+  - exact Logic.I.
+  - destruct Pp as [Pc Pr]. inversion Dp as [|? ? Dc Dr]; subst. inversion Cp as [|? ? Cc Cr]; subst.
+    change (prog_vars (c :: cs)) with (cmd_vars c + prog_vars cs) in L.
+    change (prog_elim (c :: cs)) with (cmd_elim c + prog_elim cs) in L.
+    assert (Lc : M + (n + cmd_vars c) * M + cc_fuel (e + cmd_elim c) + 8 <= f).
+    { assert ((n + cmd_vars c) * M <= (n + (cmd_vars c + prog_vars cs)) * M) by (apply Nat.mul_le_mono_r; lia).
+      unfold cc_fuel in *. lia. }
+    pose proof (cmd_nfE f c vals s n e I Iv Ls Tv Dv Pc Dc Lc Cc) as N. unfold nf in N.
+    destruct (run_cmd H f c vals s) as [vals' s'|er s']; [|exact N].
+    destruct N as (n' & Ln & I' & Iv' & L' & Tv' & Dv' & Lv').
+    apply (IH (S i) vals' s' n' (e + cmd_elim c)); auto.
+    + rewrite Lv'. exact Pr.
+    + assert ((n' + prog_vars cs) * M <= (n + (cmd_vars c + prog_vars cs)) * M) by (apply Nat.mul_le_mono_r; lia).
+      unfold cc_fuel in *. lia.
+Qed.
+
+End ProgramsE.
+
+Section ProgTermE.
+Variable H : hier.
+Hypothesis W : wf_hier H.
+
+Lemma LI_empty M e sc : LI H M 0 e (empty_store sc).
+Proof.
+  constructor.
+  - apply (core_chain (core_empty sc)).
+  - reflexivity.
+  - intros v t. unfold cell_of. cbn. destruct v; discriminate.
+  - intros c Lc. cbn in Lc. lia.
+  - cbn. lia.
+Qed.
+
+(* C17_term_elim_prog *)
+Theorem prog_term_elim prog sc fuel : progE H 0 prog -> prog_fuelE prog <= fuel ->
+  match fst (fst (run_cmds H fuel prog 0 [] (empty_store sc))) with
+  | None => True
+  | Some (e, _) =>
+      e = ESubtypeMismatch \/ e = ETypeMismatch \/ e = EFunApp \/ e = ERecursive \/
+      e = EConstraintViolation
+  end.
+Proof.
+  intros P L. unfold prog_fuelE in L.
+  assert (M1 : 1 <= prog_depth prog) by (unfold prog_depth; lia).
+  pose proof (run_cmds_nfE H W (prog_depth prog) M1 fuel prog 0 [] (empty_store sc) 0 0
+                (JE_empty H sc) (inv_empty true sc) (LI_empty _ 0 sc)
+                (Forall_nil _) (Forall_nil _) P) as K.
+  destruct (run_cmds H fuel prog 0 [] (empty_store sc)) as [[o vals] s] eqn:E. cbn [fst] in *.
+  destruct o as [[e i]|]; [|exact Logic.I].
+  pose proof (@engine_nocrash H fuel sc prog e i vals s E) as Nc.
+  assert (Nf : e <> EFuel).
+  { apply K.
+    - apply Forall_forall. intros c Hc. pose proof (list_max_in cmd_depth c prog Hc). unfold prog_depth. lia.
+    - apply Forall_forall. intros c Hc. pose proof (list_max_in cmd_clos c prog Hc). unfold prog_clos in L. lia.
+    - cbn [Nat.add]. lia. }
+  destruct e; auto 6; [destruct (Nc site eq_refl)|congruence].
+Qed.
+
+End ProgTermE.
+
+(* ================================================================== *)
+(* Explicit readings                                                    *)
+(* ================================================================== *)
+Definition inst_boundE (s : store) (sc : schema) : nat :=
+  Nat.max (inst_dep s sc + (len s + (s_n sc + wilds (s_body sc))) * inst_dep s sc
+             + cc_fuel (und s + ecnt (s_constrs sc)) + 2)
+          (length (s_constrs sc) * S (amax (s_constrs sc)) + amax (s_constrs sc) + 1).
+
+Section ReadingsE.
+Variable H : hier.
+Hypothesis W : wf_hier H.
+
+Lemma LI_intro' s : (forall v, chain s (V v)) -> KW H s ->
+  LI H (Nat.max 1 (mdepth s)) (len s) (und s) s.
+Proof.
+  intros C K. constructor; auto.
+  eapply dok_mono; [|apply dok_mdepth]. lia.
+Qed.
+
+(* re-checking one constraint: 5 * (unfulfilled elimination constraints) + 4 *)
+Theorem fulfill_nofuel_elim f c s : (forall v, chain s (V v)) -> KW H s ->
+  ff_fuel (und s) <= f -> forall s', fulfill H f c s <> MEr EFuel s'.
+Proof.
+  intros C K L. eapply nf_nofuel'.
+  apply (T_fulfill H (Nat.max 1 (mdepth s)) (len s) ltac:(lia) (und s) f c s); auto using LI_intro'.
+  intros u' _. apply CCs_all. lia.
+Qed.
+
+(* a whole re-check round, whatever the number of pending constraints and of
+   alternatives: 5 * (unfulfilled elimination constraints) + 5; the measure
+   does not grow *)
+Theorem cc_nofuel_elim f v s : (forall v, chain s (V v)) -> KW H s ->
+  cc_fuel (und s) <= f ->
+  match check_constraints H f v s with
+  | MOk _ s' => und s' <= und s /\ KW H s' /\ forall v, chain s' (V v)
+  | MEr e _ => e <> EFuel
+  end.
+Proof.
+  intros C K L.
+  pose proof (CCs_all H (Nat.max 1 (mdepth s)) (len s) ltac:(lia) (und s) f v s (LI_intro' s C K) L) as N.
+  unfold nf in N. destruct (check_constraints H f v s) as [u s'|e s']; [|exact N].
+  split; [apply N|split; apply N].
+Qed.
+
+(* the entry points of a nested round *)
+Theorem below_nofuel_elim f v a s : (forall v, chain s (V v)) -> KW H s ->
+  cc_fuel (und s) + 4 <= f -> forall s', below H f v a s <> MEr EFuel s'.
+Proof.
+  intros C K L. eapply nf_nofuel'.
+  apply (T_below H (Nat.max 1 (mdepth s)) (len s) ltac:(lia) (und s) f v a s); auto using LI_intro'.
+  apply CCs_all. lia.
+Qed.
+
+Theorem above_nofuel_elim f v a s : (forall v, chain s (V v)) -> KW H s ->
+  cc_fuel (und s) + 4 <= f -> forall s', above H f v a s <> MEr EFuel s'.
+Proof.
+  intros C K L. eapply nf_nofuel'.
+  apply (T_above H (Nat.max 1 (mdepth s)) (len s) ltac:(lia) (und s) f v a s); auto using LI_intro'.
+  apply CCs_all. lia.
+Qed.
+
+(* the invariants of SoundElim give the two hypotheses *)
+Lemma JE_inv_chain s : inv s -> forall v, chain s (V v).
+Proof. intros Iv. apply (core_chain (inv_core Iv)). Qed.
+
+(* C17_term_elim_instance *)
+Theorem instance_term_elim fuel sc s : JE H s -> inv s ->
+  styg H (s_n sc) (s_body sc) -> Forall (pscE H (s_n sc)) (s_constrs sc) ->
+  inst_boundE s sc < fuel ->
+  forall s', instance H fuel sc s <> MEr EFuel s'.
+Proof.
+  intros I Iv Sb Pc L. unfold inst_boundE in L. set (M := inst_dep s sc) in *.
+  assert (M1 : 1 <= M) by (unfold M, inst_dep; lia).
+  assert (Ls : LI H M (len s) (und s) s) by (apply LI_intro; auto; unfold M, inst_dep; lia).
+  assert (Db : sdepth (s_body sc) <= M) by (unfold M, inst_dep; lia).
+  clearbody M. eapply nf_nofuel'.
+  apply (inst_nfE H W M M1 fuel sc s (len s) (und s) I Iv Ls Sb Pc Db); lia.
+Qed.
+
+End ReadingsE.
